@@ -223,9 +223,7 @@ func chunkOracle(prop string, res *RunResult) []Violation {
 		ref := row[0]
 		cls := chainClass(texts[qi])
 		rowSuffix := preRenameFieldsSuffix(texts[qi])
-		if rowSuffix == "" {
-			rowSuffix = secondPassSuffix(texts[qi])
-		}
+
 		for w := 1; w < len(row); w++ {
 			a := row[w]
 			desc := fmt.Sprintf("world 0 (%s) vs world %d (%s)", describeWorld(worlds[0]), w, describeWorld(worlds[w]))
@@ -258,7 +256,7 @@ func chunkOracle(prop string, res *RunResult) []Violation {
 					}
 				}
 				if !same {
-					vs = append(vs, Violation{Sig: prop + ":" + cls + ":aggregate-differs" + secondPassSuffix(texts[qi]), Msg: fmt.Sprintf("%q: %s: %s (%d vs %d groups)", texts[qi], desc, detail, len(ref.groups), len(a.groups))})
+					vs = append(vs, Violation{Sig: prop + ":" + cls + ":aggregate-differs", Msg: fmt.Sprintf("%q: %s: %s (%d vs %d groups)", texts[qi], desc, detail, len(ref.groups), len(a.groups))})
 				}
 				continue
 			}
@@ -287,36 +285,6 @@ func chunkOracle(prop string, res *RunResult) []Violation {
 		}
 	}
 	return dedupV(vs)
-}
-
-// secondPassSuffix marks chains in which a command that needs a second pass over its input (`fillnull` without a
-// field list: it must see every column first) follows a `sort`: the recorded finding of that shape (the rewind
-// re-runs the parallel chains and their merger over batches cut differently).
-func secondPassSuffix(text string) string {
-	limiting := false
-	for _, part := range strings.Split(text, "|")[1:] {
-		f := strings.Fields(strings.TrimSpace(part))
-		if len(f) == 0 {
-			continue
-		}
-		switch f[0] {
-		case "sort":
-			// only a sort ahead of the two-pass command: the head-only form was a separate defect, repaired (fix
-			// 2574322), and must be reported again if it returns
-			limiting = true
-		case "fillnull":
-			allFields := true
-			for _, a := range f[1:] {
-				if !strings.Contains(a, "=") {
-					allFields = false // a field list
-				}
-			}
-			if allFields && limiting {
-				return ":second-pass-after-limiting-command"
-			}
-		}
-	}
-	return ""
 }
 
 var preRenameRe = regexp.MustCompile(`rename (\w+) AS \w+`)
